@@ -132,7 +132,7 @@ GroupOps(sc) ==
     LET key == sc.cols[Len(sc.cols)]
         rest == Without(sc.cols, {key})
     IN {<<[op |-> "groupby", by |-> <<key>>, f |-> f, sort |-> TRUE], [sc EXCEPT !.cols = rest, !.ord = TRUE, !.idx = TRUE]>> :
-            f \in {"sum", "count", "min", "max", "mean", "first", "var"}}
+            f \in {"sum", "count", "min", "max", "mean", "var"} \cup (IF sc.ord THEN {"first"} ELSE {})}   \* first needs a defined row order
        \cup {<<[op |-> "groupby", by |-> <<sc.cols[1]>>, f |-> "sum", sort |-> TRUE], [sc EXCEPT !.cols = Without(sc.cols, {sc.cols[1]}), !.ord = TRUE, !.idx = TRUE]>>}
 
 SuffixPairs == {<<"_x", "_y">>, <<"", "_r">>, <<"_l", "">>}
